@@ -183,6 +183,25 @@ Proof.
     rewrite Hop in Hstep; eapply code_refusal_keeps_state; eauto; rewrite Hout; reflexivity.
 Qed.
 
+(* how the authorization request travels - GET, or POST with any split of the parameters between
+   URL query and body - is irrelevant: same answer, and the request that comes into being has the
+   same client, redirect_uri, scopes, nonce and PKCE challenge *)
+Lemma authorize_transport_irrelevant r s cl uri scopes nonce chal x :
+  let a := step H cf r s (Authorize cl uri scopes nonce chal x) in
+  let b := step H cf r s (Authorize cl uri scopes nonce chal (by_get x)) in
+  snd a = snd b
+  /\ codes (fst a) = codes (fst b) /\ rtoks (fst a) = rtoks (fst b) /\ next (fst a) = next (fst b)
+  /\ map (fun q => (q_id q, q_client q, q_uri q, q_scopes q, q_nonce q, q_chal q, q_done q, q_sub q))
+         (reqs (fst a))
+     = map (fun q => (q_id q, q_client q, q_uri q, q_scopes q, q_nonce q, q_chal q, q_done q, q_sub q))
+         (reqs (fst b)).
+Proof.
+  cbn [step]. unfold do_authorize, ro_accepted, eff_uri, eff_scopes, eff_nonce, eff_chal, extra_ok, hinted_sub, by_get.
+  cbn [x_ro x_hint x_prompt].
+  destruct (find_client cf cl); [|cbn; auto].
+  match goal with |- context [if ?g then _ else _] => destruct g end; cbn; auto.
+Qed.
+
 (* where the parameters travel (body, query string, both with conflicting values) is irrelevant *)
 Lemma placement_irrelevant r s o :
   step H cf r s o = step H cf r s
@@ -227,14 +246,14 @@ Definition ex_ops : list (router * op) :=
     (Legacy, DropRefresh "web");
     (Legacy, TokenRefresh P_grant_query (Basic "web" "s3cret") (Some 6) []);
     (* an id_token_hint gives the request a subject, not a login: the callback yields no code *)
-    (Provider, Authorize "web" "https://web/cb" ["openid"] "n-3" None {| x_hint := Some (Some "alice"); x_prompt := ["login"]; x_ro := None |});
+    (Provider, Authorize "web" "https://web/cb" ["openid"] "n-3" None {| x_hint := Some (Some "alice"); x_prompt := ["login"]; x_ro := None; x_via := V_get |});
     (Legacy, Callback 10);
-    (Legacy, Authorize "web" "https://web/cb" ["openid"] "n-4" None {| x_hint := None; x_prompt := ["none"]; x_ro := None |});
+    (Legacy, Authorize "web" "https://web/cb" ["openid"] "n-4" None {| x_hint := None; x_prompt := ["none"]; x_ro := None; x_via := V_get |});
     (* the PKCE challenge travels inside a signed Request Object, without a method (= plain); the
        object also supersedes the nonce.  No verifier: refused; wrong verifier: refused *)
     (Legacy, Authorize "web" "https://web/cb" ["openid"] "n-5" None
                {| x_hint := None; x_prompt := [];
-                  x_ro := Some {| ro_ok := true; ro_uri := ""; ro_scopes := []; ro_nonce := "n-obj"; ro_cc := "v9"; ro_cm := None |} |});
+                  x_ro := Some {| ro_ok := true; ro_uri := ""; ro_scopes := []; ro_nonce := "n-obj"; ro_cc := "v9"; ro_cm := None |}; x_via := V_post ["code_challenge"; "nonce"] |});
     (Legacy, Login 11 "alice" 11);
     (Legacy, Callback 11);
     (Provider, TokenCode P_body None (Basic "web" "s3cret") (Some 3) "https://web/cb" "");
@@ -244,7 +263,7 @@ Definition ex_ops : list (router * op) :=
     (* an object that does not verify: no request *)
     (Provider, Authorize "web" "https://web/cb" ["openid"] "n-6" None
                {| x_hint := None; x_prompt := [];
-                  x_ro := Some {| ro_ok := false; ro_uri := ""; ro_scopes := []; ro_nonce := ""; ro_cc := "v9"; ro_cm := None |} |}) ].
+                  x_ro := Some {| ro_ok := false; ro_uri := ""; ro_scopes := []; ro_nonce := ""; ro_cc := "v9"; ro_cm := None |}; x_via := V_post ["code_challenge"; "nonce"] |}) ].
 
 Example history_nonvacuous :
   map is_tokens (outs ex_H ex_cfg ex_ops)
